@@ -378,7 +378,7 @@ func longDistances(thorough bool) []int {
 	const k = 16
 	out := []int{65536 - k, 256 - k}
 	if thorough {
-		out = append(out, 65536-2*k, 256-2*k, 65536-k-1, 65536-k+1, 65536-2*k+1, 256-k-1, 256-k+1, 2*65536-k, 65536, 256, 4096-k, 32768-k)
+		out = append(out, 65536-2*k, 256-2*k, 65536-k-1, 65536-k+1, 256-k-1, 256-k+1, 65536, 4096-k)
 	}
 	return out
 }
